@@ -80,3 +80,62 @@ pub(crate) fn async_tick() -> bool {
         None => false,
     })
 }
+
+/// Read-only access to the (already `pub`, but module-private) content-tree
+/// types and to both story loaders, for out-of-tree audits. No logic lives
+/// here: the walks and checks are written in the harness.
+pub mod audit {
+    pub use crate::{
+        choice_point::ChoicePoint,
+        container::Container,
+        control_command::{CommandType, ControlCommand},
+        divert::Divert,
+        glue::Glue,
+        ink_list::InkList,
+        ink_list_item::InkListItem,
+        list_definition::ListDefinition,
+        list_definitions_origin::ListDefinitionsOrigin,
+        native_function_call::NativeFunctionCall,
+        object::{Object, RTObject},
+        path::{Component, Path},
+        pointer::Pointer,
+        push_pop::PushPopType,
+        search_result::SearchResult,
+        tag::Tag,
+        value::Value,
+        variable_assigment::VariableAssignment,
+        variable_reference::VariableReference,
+        void::Void,
+    };
+    use crate::{story::Story, story_error::StoryError};
+    use std::rc::Rc;
+
+    pub type Loaded = (i32, Rc<Container>, Rc<ListDefinitionsOrigin>);
+
+    /// The default (serde) story loader.
+    pub fn load_default(json: &str) -> Result<Loaded, StoryError> {
+        crate::json::json_read::load_from_string(json)
+    }
+
+    /// The streaming story loader (what `stream-json-parser` selects).
+    pub fn load_stream(json: &str) -> Result<Loaded, StoryError> {
+        crate::json::json_read_stream::load_from_string(json)
+    }
+
+    /// Serialise a content tree with the crate's own writer.
+    pub fn container_to_json(c: &Container) -> Result<serde_json::Value, StoryError> {
+        crate::json::json_write::write_rt_container(c, false)
+    }
+
+    /// `Story::pointer_at_path` (the resolver used for saves and choices).
+    pub fn pointer_at_path(root: &Rc<Container>, path: &Path) -> Result<Pointer, StoryError> {
+        Story::pointer_at_path(root, path)
+    }
+
+    impl Story {
+        /// Root container of the loaded story.
+        pub fn verif_root(&self) -> Rc<Container> {
+            self.get_main_content_container()
+        }
+    }
+}
